@@ -98,6 +98,10 @@ def decompose_two_qubit_interaction_into_four_fsim_gates(
             result.append(b_decomposition)
         else:
             result.append(op)
+    if isinstance(fsim_gate, ops.ISwapPowGate) and fsim_gate.global_shift != 0:
+        # Each of the four copies of the given gate carries its global shift as a phase.
+        shift_phase = np.exp(1j * np.pi * fsim_gate.global_shift * fsim_gate.exponent)
+        result.append(ops.global_phase_operation(shift_phase**-4))
     return result
 
 
